@@ -15,7 +15,16 @@
 (*         the RA's host but not in the configured bundle)                  *)
 (*   vmax  highest protocol version the server offers: "tls13", "tls12",    *)
 (*         "tls11" (= offers TLS 1.0/1.1 only)                              *)
-(*   pol   client-certificate policy: "require" (require and verify),       *)
+(*   pol   client-certificate policy of the server: "ignore" (asks for      *)
+(*         none), "request", "requireany" (demands one, does not verify it  *)
+(*         in the TLS layer), "verifyifgiven", "require" (demands one and   *)
+(*         verifies it)                                                     *)
+(*   hint  the acceptable-CA names the server advertises with its request   *)
+(*         (= its client-CA pool): "own" (contains the issuer of the RA's   *)
+(*         certificate), "empty", "other" (non-empty, without that issuer,  *)
+(*         e.g. after a client-CA rotation); a verifying server whose pool  *)
+(*         lacks the issuer rejects the RA                                  *)
+(*   (formerly: "require" (require and verify),                             *)
 (*         "request", "ignore"                                              *)
 (*   cls   what the Signing service behind it does: "ok" (replies with      *)
 (*         Len(certs) certificates), "rpc" (status error `code`),           *)
@@ -36,6 +45,13 @@
 (*         under the same condition: Sign must still return) or "ample"     *)
 (*         (bounded, at least 3 times what all retry sequences of the      *)
 (*         endpoints of the list take together; same condition)            *)
+(*         Contexts that end early: "cancelled" / "expired" (already done   *)
+(*         when Sign is entered), "expiredwarm" (the same Signer served a   *)
+(*         call under this context, then the deadline passed, then Sign is  *)
+(*         entered again), "cancelmid" (cancelled while the first endpoint  *)
+(*         of class "deadline" is being tried).  From then on nobody can    *)
+(*         answer; the call must return an error - never an empty success - *)
+(*         and need not contact anybody.                                    *)
 (*   tries number of tries the retry interceptor makes per endpoint (with   *)
 (*         a backoff delay between them); several tries at one endpoint    *)
 (*         are one contact                                                  *)
@@ -101,14 +117,25 @@ Negotiated(e) == ClientVers \cap ServerVers(e)                \* the highest com
 VerifyPeer(e, b) == /\ Issuer(e) \in b.cas                      \* chain building ends in a configured root (host roots are not used)
                     /\ e.id # "expired"                         \* validity period
                     /\ e.id # "wrongname"                       \* subject alternative names cover the endpoint
-Handshake(e, b) == e.id = "plain" \/ (Negotiated(e) # {} /\ VerifyPeer(e, b))
+\* Client certificate: whenever the server asks, the client sends the configured certificate (whatever CA names the
+\* server hints at); a server that verifies client certificates accepts it iff its pool holds the issuer.
+AsksCert(e)     == e.pol # "ignore"
+HintOf(e)       == IF "hint" \in DOMAIN e THEN e.hint ELSE "own"
+ServerTakes(e)  == e.pol \in {"verifyifgiven", "require"} => HintOf(e) = "own"
+Handshake(e, b) == e.id = "plain" \/ (Negotiated(e) # {} /\ VerifyPeer(e, b) /\ ServerTakes(e))
 
 \* transport security, property level (C18): who is a genuine CA server
 Genuine(e, b)     == e.id \in {"ca1", "ca2"} /\ e.id \in b.cas   \* issued by a configured CA for this endpoint, valid now
-HandshakeOk(e, b) == e.id = "plain" \/ (Genuine(e, b) /\ e.vmax \in {"tls12", "tls13"})
+HandshakeOk(e, b) == e.id = "plain" \/ (Genuine(e, b) /\ e.vmax \in {"tls12", "tls13"} /\ ServerTakes(e))
+\* request contexts that end before anybody may have answered
+AtEntry       == env.ctx \in {"cancelled", "expired", "expiredwarm"}
+Deadlines     == {m \in 1..Len(eps) : eps[m].cls = "deadline"}
+FirstDeadline == IF Deadlines = {} THEN Len(eps) + 1 ELSE CHOOSE m \in Deadlines : \A x \in Deadlines : m <= x
+CutKind       == AtEntry \/ env.ctx = "cancelmid"
+DoneAt(m)     == AtEntry \/ (env.ctx = "cancelmid" /\ FirstDeadline <= m)   \* the context is done while endpoint m is tried
 \* an endpoint "answers successfully"
 Good(e, b) == HandshakeOk(e, b) /\ e.cls = "ok"
-Goods      == {m \in 1..Len(eps) : Good(eps[m], bundle)}
+Goods      == {m \in 1..Len(eps) : Good(eps[m], bundle) /\ ~DoneAt(m)}   \* nobody answers a request whose context is done
 FirstGood  == IF Goods = {} THEN 0 ELSE CHOOSE m \in Goods : \A x \in Goods : m <= x
 Upto(n)    == [m \in 1..n |-> m]
 
@@ -117,7 +144,7 @@ Upto(n)    == [m \in 1..n |-> m]
 Pending == [done |-> FALSE, err |-> TRUE, certs |-> <<>>, cm |-> <<>>]   \* "no endpoint produced a result" is an error
 
 \* instantiate a template at position m: certificate and comment names are position-bound
-Inst(t, m) == [id |-> t.id, vmax |-> t.vmax, pol |-> t.pol, cls |-> t.cls, code |-> t.code, sh |-> t.sh,
+Inst(t, m) == [id |-> t.id, vmax |-> t.vmax, pol |-> t.pol, hint |-> t.hint, cls |-> t.cls, code |-> t.code, sh |-> t.sh,
                certs |-> [j \in 1..Len(t.sh) |-> "c" \o ToString(m) \o "_" \o ToString(j)],
                cm    |-> [j \in 1..Len(t.sh) |-> IF t.sh[j] = "none" THEN "" ELSE t.sh[j] \o ToString(m) \o "_" \o ToString(j)]]
 
@@ -125,9 +152,11 @@ AllCAs    == {"ca1", "ca2", "caX"}
 Others(b) == AllCAs \ b.cas                        \* the CA files a history step loads: everything this signer must NOT trust
 NoEnv     == [ctx |-> "wide", tries |-> 1, hist |-> "none", loaded |-> {}, hdone |-> TRUE]
 InitCase == /\ bundle \in Bundles
-            /\ \E c \in Ctxs : \E h \in Hists : \E t \in Tries : env = [ctx |-> c, tries |-> t, hist |-> h, loaded |-> {}, hdone |-> h = "none"]
+            /\ \E c \in Ctxs : \E h \in Hists : \E t \in Tries : env = [ctx |-> c, tries |-> t, hist |-> h, loaded |-> {}, hdone |-> (h = "none" /\ c # "expiredwarm")]
             /\ \E n \in 0..MaxN : \E ts \in [1..n -> Templates] : eps = [m \in 1..n |-> Inst(ts[m], m)]
-            /\ env.ctx \in {"tight", "none", "ample"} => (env.hist = "none" /\ \A m \in 1..Len(eps) : eps[m].cls # "deadline")
+            /\ env.ctx \in {"cancelled", "expired", "expiredwarm", "cancelmid"} => (env.hist = "none" /\ env.tries = 1)
+            /\ env.ctx = "cancelmid" => \E m \in 1..Len(eps) : eps[m].cls = "deadline"
+            /\ env.ctx \in {"tight", "none", "ample", "expiredwarm"} => (env.hist = "none" /\ \A m \in 1..Len(eps) : eps[m].cls # "deadline")
             /\ pc = "new" /\ i = 1 /\ contacted = <<>> /\ result = Pending /\ last = NoLbl
 InitBo   == /\ BackoffCfgs # {} /\ bundle = [cas |-> {}, lay |-> "none"] /\ env = NoEnv /\ eps = <<>> /\ pc = "bo" /\ i = 1
             /\ contacted = <<>> /\ result = Pending /\ last = NoLbl
@@ -142,7 +171,13 @@ OtherConf == /\ ~env.hdone
              /\ UNCHANGED <<eps, bundle, pc, i, contacted, result>>
 
 \* NewSigner: may refuse a configuration without endpoints (then no signing call exists), never another one
-Construct == /\ pc = "new" /\ (env.hdone \/ env.hist = "between")
+\* an earlier signing call of the same Signer under the same context (its outcome is not the subject of this case)
+PriorCall == /\ ~env.hdone /\ env.ctx = "expiredwarm" /\ pc = "loop" /\ contacted = <<>>
+             /\ env' = [env EXCEPT !.hdone = TRUE]
+             /\ last' = [NoLbl EXCEPT !.op = "priorcall"]
+             /\ UNCHANGED <<eps, bundle, pc, i, contacted, result>>
+
+Construct == /\ pc = "new" /\ (env.hdone \/ env.hist = "between" \/ env.ctx = "expiredwarm")
              /\ \/ pc' = "loop" /\ last' = [NoLbl EXCEPT !.op = "construct"]
                 \/ Len(eps) = 0 /\ pc' = "refused" /\ last' = [NoLbl EXCEPT !.op = "construct", !.err = TRUE]
              /\ env' = [env EXCEPT !.loaded = @ \cup bundle.cas]
@@ -152,15 +187,16 @@ Dead(e) == e.cls \in {"refused", "acceptclose"}      \* dead at transport level
 Contact == /\ pc = "loop" /\ ~result.done /\ i <= Len(eps) /\ env.hdone
            /\ LET e  == eps[i]
                   hs == Handshake(e, bundle)
-                  ok == hs /\ e.cls = "ok"
-              IN /\ contacted' = Append(contacted, i)
+                  ok == hs /\ e.cls = "ok" /\ ~DoneAt(i)
+              IN /\ \/ contacted' = Append(contacted, i)
+                    \/ DoneAt(i) /\ (AtEntry \/ FirstDeadline < i) /\ contacted' = contacted   \* a done context: the endpoint may not even be dialled
                  /\ i' = i + 1
                  /\ result' = IF ok THEN [done |-> TRUE, err |-> FALSE, certs |-> e.certs, cm |-> e.cm]
                                                  ELSE Pending
                  /\ last' = [NoLbl EXCEPT !.op = "contact", !.ep = i,
                                 !.hs  = IF e.id = "plain" THEN "none" ELSE IF hs THEN "ok" ELSE "fail",
                                 !.ver = IF e.id = "plain" \/ ~hs THEN "none" ELSE IF 13 \in Negotiated(e) THEN "tls13" ELSE "tls12",
-                                !.cc  = IF e.id # "plain" /\ hs /\ e.pol \in {"require", "request"} THEN "configured" ELSE "none",
+                                !.cc  = IF e.id # "plain" /\ hs /\ AsksCert(e) THEN "configured" ELSE "none",
                                 !.rpc = hs /\ ~Dead(e)]
            /\ UNCHANGED <<eps, bundle, env, pc>>
 
@@ -185,15 +221,17 @@ Backoff == /\ pc = "bo"
                                    max |-> Val(SMax(Draws(c, a))), bound |-> Val(c.max * (10 + c.jit))]]
            /\ UNCHANGED <<eps, bundle, env, pc, i, contacted, result>>
 
-Next == OtherConf \/ Construct \/ Contact \/ Return \/ Backoff
+Next == OtherConf \/ PriorCall \/ Construct \/ Contact \/ Return \/ Backoff
 Spec == Init /\ [][Next]_vars
 
 ---------------------------------------------------------------------------
 \* C17: ordered fail-over; first success wins; exhaustion (or no endpoint) is an error; retry delays are bounded
 C17_Contact(l) ==
-  /\ l.ep = Len(contacted) + 1 /\ l.ep <= Len(eps)             \* strictly in order: no skip, no repeat, no invention
+  /\ l.ep <= Len(eps)
+  /\ IF CutKind THEN \A m \in 1..Len(contacted) : contacted[m] < l.ep   \* a context that ends early: in order; endpoints may go undialled
+                ELSE l.ep = Len(contacted) + 1                          \* strictly in order: no skip, no repeat, no invention
   /\ \A m \in 1..Len(contacted) :                               \* nobody is contacted after an endpoint succeeded
-        contacted[m] \in 1..Len(eps) => ~Good(eps[contacted[m]], bundle)
+        contacted[m] \notin Goods
   /\ l.rpc => l.same                                            \* the request arrives unmodified
 C17_Return(l) ==
   /\ ~l.pan /\ ~l.hang                                          \* it returns (whatever the request budget), it does not crash
@@ -219,7 +257,7 @@ C18_Contact(l) ==
      /\ (l.hs = "ok") <=> HandshakeOk(e, bundle)
      /\ (l.hs = "ok") => l.ver \in {"tls12", "tls13"}
      /\ l.rpc => (l.hs = "ok")
-     /\ (HandshakeOk(e, bundle) /\ e.pol \in {"require", "request"}) => l.cc = "configured"
+     /\ (HandshakeOk(e, bundle) /\ AsksCert(e)) => l.cc = "configured"   \* whichever way the server asks and whatever it hints at
 C18_Step ==
   /\ (last'.op = "contact") => C18_Contact(last')
   /\ (last'.op = "return")  => C17_Return(last')
@@ -234,15 +272,16 @@ P_C18 == [][C18_Step]_vars
 
 ---------------------------------------------------------------------------
 \* sanity of the design (invariants of the bounded model)
-TypeOK == /\ env.ctx \in {"wide", "tight", "none", "ample"} /\ env.tries \in 1..3 /\ env.loaded \subseteq AllCAs
+TypeOK == /\ env.ctx \in {"wide", "tight", "none", "ample", "cancelled", "expired", "expiredwarm", "cancelmid"} /\ env.tries \in 1..3 /\ env.loaded \subseteq AllCAs
           /\ pc \in {"new", "loop", "returned", "refused", "bo"}
           /\ i \in 1..(MaxN + 1) /\ Len(contacted) <= MaxN
           /\ result.done \in BOOLEAN /\ result.err \in BOOLEAN
           /\ Len(result.certs) = Len(result.cm)
-Returned == pc = "returned" =>
+Returned == (pc = "returned" /\ ~CutKind) =>
               /\ last.err <=> (FirstGood = 0)
               /\ ~last.err => Len(last.certs) \in 1..3 /\ Len(last.cm) = Len(last.certs)
               /\ contacted = Upto(IF FirstGood = 0 THEN Len(eps) ELSE FirstGood)
+NoEmptySuccess == pc = "returned" => (last.err \/ Len(last.certs) >= 1)
 NoLateContact == \A m \in 1..Len(contacted) : \A n \in 1..Len(contacted) :
-                    (m < n /\ Good(eps[contacted[m]], bundle)) => FALSE
+                    (m < n /\ contacted[m] \in Goods) => FALSE
 =============================================================================
